@@ -13,7 +13,7 @@ import warnings
 
 
 class Recorder:
-    MAX_VIOL = int(os.environ.get('VERIF_MAX_VIOL', '40'))
+    MAX_VIOL = int(os.environ.get('VERIF_MAX_VIOL', '400'))
     PER_SIG = int(os.environ.get('VERIF_PER_SIG', '3'))
 
     def __init__(self, prop, tier, seed, shard, nshards):
